@@ -11,8 +11,8 @@
 (*   rec {name,labels,v}  desc {name,d,unit}  upkeep  render {fams}             *)
 (*                                   calls made while nothing else runs         *)
 (*   c.begin {p,op}  c.end {p,op,fams}   a render/run_upkeep of thread p        *)
-(*   d.null {p}  d.detach {p,name,labels,b}  d.qok {p}  d.deliver {p}           *)
-(*   h.fix {p,name,labels,v,b}  h.claim {p,name,labels,v,b}  c.inc {p,..,n}     *)
+(*   d.null {p}  d.load {p,name,labels,b}  d.detach {..}  d.casfail  d.qok {b}  d.deliver {b} *)
+(*   h.fix {p,name,labels,v,b}  h.claim {..}  h.ack  h.full {b}  h.casfull {ok,b}  c.inc *)
 (*                                   scheduled runs: steps of the abstract bucket *)
 (*   free {hk,ck,gk,conc,mono}  frender {fams}   real-parallel runs             *)
 EXTENDS PromRecorder, Json, IOUtils, TLCExt
@@ -40,10 +40,11 @@ NoDupObs(e) == /\ Cardinality(Fams(e)) = Len(e.fams)
 ResetTo(c) ==
   /\ cfg' = c
   /\ ctr' = EF /\ gau' = EF /\ cinc' = EF /\ cabs' = EF
-  /\ hreg' = {} /\ pend' = EF /\ dist' = EF /\ att' = EF /\ ep' = EF /\ crec' = EF /\ lost' = EF
-  /\ lock' = 0 /\ dkey' = NoKey /\ dst' = "none" /\ det' = EF /\ dep' = 0
+  /\ hreg' = {} /\ pend' = EF /\ dist' = EF /\ att' = EF /\ ep' = EF /\ fill' = EF /\ lo' = EF
+  /\ crec' = EF /\ lost' = EF /\ skipped' = EF /\ cfail' = FALSE
+  /\ lock' = 0 /\ dkey' = NoKey /\ dst' = "none" /\ det' = EF /\ dep' = 0 /\ dlo' = 0 /\ dcur' = 0
   /\ rpc' = [p \in Recorders |-> "idle"] /\ rk' = [p \in Recorders |-> NoKey]
-  /\ rv' = [p \in Recorders |-> 0] /\ rep' = [p \in Recorders |-> 0]
+  /\ rv' = [p \in Recorders |-> 0] /\ rep' = [p \in Recorders |-> 0] /\ after' = [p \in Recorders |-> EF]
   /\ dpc' = [d \in Drainers |-> "idle"] /\ dop' = [d \in Drainers |-> "none"]
   /\ todo' = [d \in Drainers |-> {}] /\ csnap' = [d \in Drainers |-> EF] /\ gsnap' = [d \in Drainers |-> EF]
   /\ buf' = [d \in Drainers |-> EF] /\ nbeg' = [d \in Drainers |-> EF]
@@ -54,6 +55,12 @@ ResetTo(c) ==
 \* in a state where the model has a sample in `lost` (i.e. the count really is short by exactly those)
 LostNow == {k \in DOMAIN lost : lost[k] # EF}
 ReportLost == IF LostNow = {} THEN TRUE ELSE Known("CF05a", SumF([k \in LostNow |-> BCount(lost[k])], LostNow))
+
+\* CF07a is reported where a render of the real code confirms it: the render whose clear_with CAS failed for a key with
+\* pending samples ended with exactly the model's exposition (which lacks them)
+SkippedBy(d) == {k \in hreg \ DOMAIN nbeg[d] : Get(pend, k, EF) # EF}
+ReportSkipped(d) == IF dop[d] = "render" /\ ~CF07aFixed /\ SkippedBy(d) # {}
+                      THEN Known("CF07a", SumF([k \in SkippedBy(d) |-> BCount(pend[k])], SkippedBy(d))) ELSE TRUE
 
 \* ---- real-parallel runs: only what holds for every schedule
 SeqBag(s) == [v \in {s[i][1] : i \in DOMAIN s} |-> SumF([i \in DOMAIN s |-> IF s[i][1] = v THEN s[i][2] ELSE 0], DOMAIN s)]
@@ -73,8 +80,9 @@ FreeA(e) ==
   /\ pend' = ApplyH(pend, e.hk, 1) /\ crec' = ApplyH(crec, e.hk, 1)
   /\ att' = [k \in DOMAIN att \cup {K(e.hk[i]) : i \in DOMAIN e.hk} |-> TRUE]
   /\ ep' = [k \in DOMAIN ep \cup {K(e.hk[i]) : i \in DOMAIN e.hk} |-> Get(ep, k, 0) + 1]
+  /\ fill' = EF /\ lo' = [k \in DOMAIN ep \cup {K(e.hk[i]) : i \in DOMAIN e.hk} |-> Get(ep, k, 0) + 1]
   /\ ctr' = ApplyC(ctr, e.ck, 1) /\ cinc' = ApplyI(cinc, e.ck, 1) /\ gau' = ApplyG(gau, e.gk, 1)
-  /\ Dirty /\ UNCHANGED <<cfg, cabs, dist, lost, vDrain, vRec, vDr, vOut, vDesc>>
+  /\ Dirty /\ UNCHANGED <<cfg, cabs, dist, lost, skipped, cfail, vDrain, vRec, vDr, vOut, vDesc>>
 \* the final render of a real-parallel run.  If drains ran concurrently with the recording threads
 \* (e.conc) samples may be missing (CF05a): then every histogram count/bucket/sum may only be LOWER
 \* than the model's, everything else equal; with no concurrent drain the exposition is exact.
@@ -127,12 +135,19 @@ TraceNext ==
        \* scheduled runs
        [] Ev = "c.begin" -> DBegin(P, E.op) /\ Step
        [] Ev = "c.end"   -> dop[P] = E.op /\ DEnd(P) /\ (E.op = "render" => (out' = Fams(E) /\ NoDupObs(E))) /\ Step
+                            /\ ReportSkipped(P)
        [] Ev = "d.null"  -> DNull(P) /\ Step
-       [] Ev = "d.detach"-> Get(ep, K(E), 0) = E.b /\ DDetach(P, K(E)) /\ Step
-       [] Ev = "d.qok"   -> DQok(P) /\ Step
-       [] Ev = "d.deliver" -> DDeliver(P) /\ Step
+       [] Ev = "d.load"  -> Get(ep, K(E), 0) = E.b /\ Step
+                            /\ (IF lock = P /\ dst = "retry" THEN dkey = K(E) /\ DReload(P) ELSE DLoad(P, K(E)))
+       [] Ev = "d.detach"-> dkey = K(E) /\ dep = E.b /\ DDetach(P) /\ Step
+       [] Ev = "d.casfail" -> DCasFail(P) /\ Step
+       [] Ev = "d.qok"   -> dcur = E.b /\ DQok(P) /\ Step
+       [] Ev = "d.deliver" -> dcur = E.b /\ DDeliver(P) /\ Step
        [] Ev = "h.fix"   -> RFix(P, K(E), E.v) /\ rep'[P] = E.b /\ Step
        [] Ev = "h.claim" -> rk[P] = K(E) /\ rv[P] = E.v /\ rep[P] = E.b /\ (RClaimIn(P) \/ RClaimLost(P)) /\ Step
+       [] Ev = "h.full"  -> rep[P] = E.b /\ RFull(P) /\ Step
+       [] Ev = "h.casfull" -> RCasFull(P) /\ (IF E.ok THEN rpc'[P] = "fixed" /\ rep'[P] = E.b ELSE rpc'[P] = "retry") /\ Step
+       [] Ev = "h.ack"   -> RAck(P) /\ Step
        [] Ev = "c.inc"   -> rpc[P] = "idle" /\ IncA(K(E), E.n) /\ Step
        \* real-parallel runs
        [] Ev = "free"    -> FreeA(E) /\ Step
